@@ -506,9 +506,16 @@ struct Ctx {
     acks: Vec<String>,
     /// Handler futures driven poll by poll (`XH` / `XP`, `XN` / `XQ` / `XD`).
     held: BTreeMap<String, (HeldPull, Arc<deltio::subscriptions::Subscription>)>,
+    /// StreamingPull handlers driven poll by poll (`XS` / `XQ` / `XD`): the response stream and the sender
+    /// side of the request body (kept open: the client sends nothing after the initial request).
+    held_streams: BTreeMap<String, (HeldStream, mpsc::UnboundedSender<Result<http_body::Frame<bytes::Bytes>, Status>>)>,
     /// Requests put into a mailbox by `XF` and not yet awaited (they finish at the next `XT`).
     fillers: Vec<std::pin::Pin<Box<dyn Future<Output = ()> + Send>>>,
 }
+
+type HeldStream = std::pin::Pin<
+    Box<dyn tokio_stream::Stream<Item = Result<deltio::pubsub_proto::StreamingPullResponse, Status>> + Send>,
+>;
 
 type HeldPull = std::pin::Pin<
     Box<dyn Future<Output = Result<tonic::Response<deltio::pubsub_proto::PullResponse>, Status>> + Send>,
@@ -555,7 +562,7 @@ async fn run_ops(
         // letting the runtime settle first.
         let directive = matches!(
             line.split(' ').next(),
-            Some("BG") | Some("CANCEL") | Some("YIELD") | Some("XN") | Some("XQ") | Some("XD") | Some("XF")
+            Some("BG") | Some("CANCEL") | Some("YIELD") | Some("XN") | Some("XS") | Some("XQ") | Some("XD") | Some("XF")
         );
         if !stop && !directive {
             quiesce(&ctx).await;
@@ -626,6 +633,7 @@ async fn start(push_mode: bool) -> Result<Ctx, Fail> {
         ptimes: Vec::new(),
         acks: Vec::new(),
         held: BTreeMap::new(),
+        held_streams: BTreeMap::new(),
         fillers: Vec::new(),
     })
 }
@@ -825,6 +833,7 @@ async fn exec(ctx: &mut Ctx, line: &str) -> OpResult {
                     ptimes: Vec::new(),
                     acks: ctx.acks.clone(),
                     held: BTreeMap::new(),
+                    held_streams: BTreeMap::new(),
                     fillers: Vec::new(),
                 };
                 tokio::spawn(async move { BgOut::Line(exec_boxed(&mut sub, inner).await) })
@@ -1406,6 +1415,54 @@ async fn exec(ctx: &mut Ctx, line: &str) -> OpResult {
             }
             Ok(format!("XC {}", if done { "done" } else { "dropped" }))
         }
+        "XS" => {
+            // XS <id> <sub> <max>: the server's own StreamingPull handler, called without the transport: the request
+            // body is a channel into which the initial request is put as one gRPC frame; the handler is awaited
+            // (it only reads that frame) and the response stream is kept, not polled.
+            use deltio::pubsub_proto::subscriber_server::Subscriber;
+            use prost::Message;
+            use tonic::codec::Codec;
+            let id = t.next().map_err(bad)?.to_string();
+            let sub_name = t.str().map_err(bad)?;
+            let max: i64 = t.num().map_err(bad)?;
+            t.end().map_err(bad)?;
+            let (tm, sm, _) = ctx.app.verif_parts();
+            let svc = deltio::verif::subscriber_service(tm, sm);
+            let first = StreamingPullRequest {
+                subscription: sub_name,
+                max_outstanding_messages: max,
+                stream_ack_deadline_seconds: 10,
+                ..Default::default()
+            };
+            let payload = first.encode_to_vec();
+            let mut frame = Vec::with_capacity(5 + payload.len());
+            frame.push(0u8);
+            frame.extend_from_slice(&(payload.len() as u32).to_be_bytes());
+            frame.extend_from_slice(&payload);
+            let (tx, rx) = mpsc::unbounded_channel::<Result<http_body::Frame<bytes::Bytes>, Status>>();
+            let _ = tx.send(Ok(http_body::Frame::data(bytes::Bytes::from(frame))));
+            let body = http_body_util::StreamBody::new(UnboundedReceiverStream::new(rx));
+            let mut codec =
+                tonic::codec::ProstCodec::<deltio::pubsub_proto::StreamingPullResponse, StreamingPullRequest>::default();
+            let streaming = tonic::Streaming::new_request(codec.decoder(), body, None, None);
+            let mut call = Box::pin(async move { svc.streaming_pull(tonic::Request::new(streaming)).await });
+            let mut opened = None;
+            for _ in 0..8 {
+                if let std::task::Poll::Ready(r) = futures::poll!(call.as_mut()) {
+                    opened = Some(r);
+                    break;
+                }
+            }
+            match opened {
+                Some(Ok(resp)) => {
+                    let stream: HeldStream = Box::pin(resp.into_inner());
+                    ctx.held_streams.insert(id, (stream, tx));
+                    Ok("XS".to_string())
+                }
+                Some(Err(st)) => Ok(format!("XS {}", st.code() as i32)),
+                None => Err(bad("XS: the handler did not return its stream".into())),
+            }
+        }
         "XN" => {
             // XN <id> <sub> <max>: the unary Pull handler (blocking form) is created, not polled.
             use deltio::pubsub_proto::subscriber_server::Subscriber;
@@ -1432,6 +1489,18 @@ async fn exec(ctx: &mut Ctx, line: &str) -> OpResult {
             // XQ <id>: one poll of the held handler; nothing else runs.
             let id = t.next().map_err(bad)?.to_string();
             t.end().map_err(bad)?;
+            if let Some((stream, _)) = ctx.held_streams.get_mut(&id) {
+                use tokio_stream::StreamExt;
+                let mut next = std::pin::pin!(stream.next());
+                return Ok(match futures::poll!(next.as_mut()) {
+                    std::task::Poll::Pending => "XQ pending".to_string(),
+                    std::task::Poll::Ready(Some(Ok(resp))) => format!("XQ batch {}", resp.received_messages.len()),
+                    std::task::Poll::Ready(Some(Err(_))) | std::task::Poll::Ready(None) => {
+                        ctx.held_streams.remove(&id);
+                        "XQ done err".to_string()
+                    }
+                });
+            }
             let (fut, _) = match ctx.held.get_mut(&id) {
                 Some(x) => x,
                 None => return Ok("XQ gone".to_string()),
@@ -1451,6 +1520,9 @@ async fn exec(ctx: &mut Ctx, line: &str) -> OpResult {
             // XD <id>: the held handler is dropped where it stands.
             let id = t.next().map_err(bad)?.to_string();
             t.end().map_err(bad)?;
+            if ctx.held_streams.remove(&id).is_some() {
+                return Ok("XD".to_string());
+            }
             Ok(match ctx.held.remove(&id) {
                 Some(_) => "XD".to_string(),
                 None => "XD gone".to_string(),
